@@ -165,7 +165,7 @@ Proof.
   unfold nidem_ok. intro H. apply andb_prop in H as [H X]. apply andb_prop in H as [H X0]. apply andb_prop in H as [H X1]. apply andb_prop in H as [H X2].
   pose proof (nwf_wf g H) as WF. pose proof (wf_same_scale g WF) as SS.
   unfold idem_ok. rewrite X2. unfold hdr_idem in X1. rewrite X1. cbn [andb].
-  unfold nwf, wf_g in H. apply andb_prop in H as [_ H].
+  unfold nwf, wf_g, wf_rest in H. apply andb_prop in H as [_ H].
   destruct (unit_scale_of (h_unit (g_hdr g))) as [sc|] eqn:U; [|discriminate]. rewrite X2 in H.
   destruct (conv_len colname_lengths _) as [L|] eqn:EL; [|discriminate].
   destruct (conv_len layername_lengths _) as [LL|] eqn:ELL; [|discriminate].
